@@ -6,7 +6,7 @@ LEVEL = "exploration"
 
 
 def run(ctx):
-    stacks = zoo.select(ctx.seed, ctx.tier, limit=2000 if ctx.thorough else 150)
+    stacks = zoo.select(ctx.seed, ctx.tier, limit=2600 if ctx.thorough else 150)
     sh = zoorun.make_shards(ctx, stacks, "zoo::drive_c02<{Z}>();", "c02", flavour="asan-dbg")
     if ctx.thorough:
         sh += zoorun.make_shards(ctx, stacks, "zoo::drive_c02<{Z}>();", "c02", flavour="asan-rel", primary=False)
